@@ -82,7 +82,7 @@ def on_context(p, r, exc, acc):
 
 
 # ------------------------------------------------------------------ compile-time half: binding site x read site over real templates
-SITES = ["body", "def", "nested-def", "block", "call-body", "control-line", "loop-target", "tag-attribute", "filter-argument", "nested-def-default"]
+SITES = ["body", "def", "nested-def", "block", "call-body", "control-line", "loop-target", "tag-attribute", "filter-argument", "nested-def-default", "namespace-def"]
 
 
 def source(f):
@@ -115,6 +115,9 @@ def source(f):
         out.append('<%%def name="w2(q)">[${q}]</%%def><%%call expr="w2(val(%s))"></%%call>' % n)
     elif site == "filter-argument":
         out.append("${'' | pick(%s)}" % n)
+    elif site == "namespace-def":
+        # a def written inside an inline <%namespace> tag
+        out.append('<%%namespace name="nsx"><%%def name="nd()">%s</%%def></%%namespace>${nsx.nd()}' % read)
     elif site == "nested-def-default":
         # the default of a def nested in another def is evaluated in the enclosing def's scope
         out.append('<%%def name="o2()"><%%def name="i2(a=%s)">[${val(a)}]</%%def>${i2()}</%%def>${o2()}' % n)
@@ -190,6 +193,8 @@ def h_scopes(p):
         f[k] = bool(p.choose(2, k))
     if f["def_arg"] and f["site"] not in ("def", "nested-def"):
         raise core.Abort("argument binding only applies to def sites")
+    if f["site"] == "namespace-def" and (f["body_assign"] or f["page_arg"] or f["imported"]):
+        raise core.Abort("what a def of an inline namespace sees of the body's own variables and imports is not fixed by the statement")
     if f["outer_local"] and f["site"] != "nested-def":
         raise core.Abort("enclosing-def local only applies to the nested def site")
     from symx import loader
